@@ -1,59 +1,76 @@
 --------------------------- MODULE TMPeerGossipSys ---------------------------
-(* State machine over TMPeerGossip: one hostile peer sends any sequence of at most MaxMsgs messages
-   of TMPeerGossip!HostileMsgs; the node's per-peer goroutines run at any time in between.
-     Hostile(m)      Reactor.ReceiveEnvelope(m) in the peer's recvRoutine (under MConnection._recover)
-     VotesStep(w)    gossipVotesRoutine: the PickSendVote attempt w of gossipVotesForHeight
+(* State machine over TMPeerGossip: the node starts in one of TMPeerGossip!NodeClasses; one hostile peer sends
+   any sequence of at most MaxMsgs messages of TMPeerGossip!HostileMsgs; the node's per-peer goroutines run at
+   any time in between; the node itself carries on (starts the height, fails a round, commits) at any time.
+     Hostile(m)      Reactor.ReceiveEnvelope(m) in the peer's recvRoutine (under MConnection._recover), and for
+                     votes consensus.State.handleMsg -> addVote in receiveRoutine (under its own recover, which
+                     halts consensus: "CONSENSUS FAILURE!!!")
+     VotesStep(w)    gossipVotesRoutine: the PickSendVote attempt w
      DataStep        gossipDataRoutine, one iteration
-     Maj23Step       queryMaj23Routine, one iteration (reads heights only; the node has no +2/3 yet)  *)
+     Maj23Step       queryMaj23Routine, one iteration (reads heights only; the node has no +2/3 of its own yet)
+     NodeStart / NodeNextRound / NodeCommit     the NewHeight timeout, a failed round, a committed height  *)
 EXTENDS TMPeerGossip
 
 CONSTANT MaxMsgs
-VARIABLES prs, nmsg, stopped, crashed, act
-gvars == <<prs, nmsg, stopped, crashed, act>>
+VARIABLES nd, prs, nmsg, stopped, crashed, act
+gvars == <<nd, prs, nmsg, stopped, crashed, act>>
 
-GInit == prs = NewPRS /\ nmsg = 0 /\ stopped = FALSE /\ crashed = FALSE /\ act = [name |-> "Init"]
+GInit == nd \in NodeClasses /\ prs = NewPRS /\ nmsg = 0 /\ stopped = FALSE /\ crashed = FALSE
+         /\ act = [name |-> "Init", class |-> ClassName(nd)]
 
-Running == ~stopped /\ ~crashed
+Alive == ~crashed /\ ~nd.halted
 
 Hostile(m) ==
-  /\ Running /\ nmsg < MaxMsgs
-  /\ LET x == Receive(prs, m) IN
+  /\ Alive /\ ~stopped /\ nmsg < MaxMsgs /\ nd.step # "done"
+  /\ LET x == Receive(nd, prs, m) IN
      /\ prs' = x.p
+     /\ nd' = [x.nd EXCEPT !.halted = x.halt]
      /\ stopped' = x.stop
      /\ act' = [name |-> "Hostile", m |-> m, stop |-> x.stop]
   /\ nmsg' = nmsg + 1
   /\ UNCHANGED crashed
 
 VotesStep(w) ==
-  /\ Running
-  /\ LET x == PickVote(prs, w) IN
+  /\ Alive /\ ~stopped
+  /\ LET x == PickVote(nd, prs, w) IN
      /\ prs' = x.p
      /\ crashed' = x.panic
      /\ act' = [name |-> "VotesStep", w |-> w]
-  /\ UNCHANGED <<nmsg, stopped>>
+  /\ UNCHANGED <<nd, nmsg, stopped>>
 
 DataStep ==
-  /\ Running
-  /\ LET x == GossipData(prs) IN
+  /\ Alive /\ ~stopped
+  /\ LET x == GossipData(nd, prs) IN
      /\ prs' = x.p
      /\ crashed' = x.panic
      /\ act' = [name |-> "DataStep"]
-  /\ UNCHANGED <<nmsg, stopped>>
+  /\ UNCHANGED <<nd, nmsg, stopped>>
 
 Maj23Step ==
-  /\ Running
+  /\ Alive /\ ~stopped
   /\ act' = [name |-> "Maj23Step"]
+  /\ UNCHANGED <<nd, prs, nmsg, stopped, crashed>>
+
+NodeStep(name, x) ==
+  /\ nd' = [x.nd EXCEPT !.halted = x.halt]
+  /\ act' = [name |-> name]
   /\ UNCHANGED <<prs, nmsg, stopped, crashed>>
+NodeStart     == Alive /\ nd.step = "newheight" /\ NodeStep("NodeStart", StartHeight(nd))
+NodeNextRound == Alive /\ nd.step = "later" /\ nd.r < 1 /\ NodeStep("NodeNextRound", NextRound(nd))
+NodeCommit    == Alive /\ nd.step = "later" /\ NodeStep("NodeCommit", Commit(nd))
 
 GNext ==
   \/ \E m \in HostileMsgs : Hostile(m)
   \/ \E w \in VotesTries : VotesStep(w)
   \/ DataStep
   \/ Maj23Step
+  \/ NodeStart \/ NodeNextRound \/ NodeCommit
 
-\* hostile input only drops the peer: no goroutine of the node panics
+\* hostile input only drops the peer: no goroutine of the node panics (the process survives) ...
 NeverCrashes == ~crashed
+\* ... and the consensus state machine is never halted (the node is not wedged)
+NeverHalts == ~nd.halted
 \* whatever the peer sends, what is stored stays within the documented bounds (and only those)
-StoredSizesBounded == StoredBounded(prs)
-GView == <<prs, nmsg, stopped, crashed>>
+StoredSizesBounded == StoredBounded(prs) /\ nd.catchup <= 2
+GView == <<nd, prs, nmsg, stopped, crashed>>
 =============================================================================
